@@ -827,6 +827,33 @@ def _esn_noise_schedule_probe():
     return None
 
 
+def _entry_order_probe():
+    """rpy.set_seed(s); two UNSEEDED reservoirs with fixed names merged into one model (two entry nodes); run: the script is repeated 10 times in one process with
+    unrelated allocations in between, and the first reservoir's W must be the same bytes every time (the order in which a model initialises its entry nodes may not
+    depend on memory addresses)"""
+    import reservoirpy as r_
+    r_.verbosity(0)
+    from reservoirpy.nodes import Reservoir
+    keep, ws = [], []
+    sc = {"check": "entry-order"}
+    try:
+        for k in range(10):
+            r_.set_seed(7)
+            r1, r2 = Reservoir(6, name="eo_a%d" % k), Reservoir(9, name="eo_b%d" % k)
+            X = np.linspace(0, 1, 12).reshape(-1, 2)
+            (r1 & r2).run({r1.name: X, r2.name: X})
+            keep.extend([r1, r2] + [object() for _ in range(k * 37)])
+            ws.append(r1.W.toarray().tobytes())
+    except Exception as ex:  # noqa: BLE001
+        return _viol("entry-order:exception", "set_seed script with two entry nodes raises %r" % (ex,), sc)
+    same = [w == ws[0] for w in ws]
+    if not all(same):
+        return _viol("set_seed:init-order-of-entry-nodes-by-address", "rpy.set_seed(7); (Reservoir(name=a) & Reservoir(name=b)).run(...) repeated 10 times in one process: the first "
+                     "reservoir's W equals the first trial's in %s: entry nodes are initialised in the iteration order of a set of nodes (memory addresses), so which unseeded "
+                     "node draws first from the global generator changes from run to run" % same, sc)
+    return None
+
+
 def oracle(ctx, scale=1):
     rng = ctx.rng("oracle")
     rpy()
@@ -844,6 +871,10 @@ def oracle(ctx, scale=1):
             if v:
                 viol.append(v)
         v = _esn_noise_schedule_probe()
+        ev += 1
+        if v:
+            viol.append(v)
+        v = _entry_order_probe()
         ev += 1
         if v:
             viol.append(v)
@@ -1058,6 +1089,9 @@ def replay(payload):
     sc = payload.get("scenario") or {}
     if "ops" in sc:
         v = _judge_history(sc)
+        return {"violates": bool(v), "detail": v}
+    if sc.get("check") == "entry-order":
+        v = _entry_order_probe()
         return {"violates": bool(v), "detail": v}
     if sc.get("check") == "esn-noise-schedule":
         v = _esn_noise_schedule_probe()
